@@ -530,6 +530,30 @@ def lib_get_data_context_v(ip, st, pos, kws):
     return [(a, pair), (b, bare)]
 
 
+def get_part_value_level(ip, st, v, which):
+    """lena.flow.get_context / get_data of an abstract flow value while an ITEM of a comprehension over a sequence of symbolic
+    length is evaluated (no forking, no objects per item there): the part as a VALUE -- ite(v_has_context(v), vctx(v), {}) /
+    ite(v_has_context(v), vdata(v), v).  A context handed out like this is an immutable snapshot (a later store into it is
+    out-of-subset); sound only while no value's context object has been changed in place (checked)."""
+    reg = ip.reg
+    reg.need_val()
+    for key, ref in st.notes.get("vctx", {}).items():
+        if ip.deref(st, ref).s != "(vctx %s)" % key:
+            raise U("get_context / get_data inside a comprehension after the context of a flow value was changed in place")
+    hc = reg.ufun("v_has_context", ["V"], "Bool")
+    cond = T("(%s %s)" % (hc, v.t.s), "Bool")
+    ip.assumptions.add("flow values of the abstract sort V: v_has_context(v) tells a (data, context) pair from bare data; "
+                       "get_data_context / get_data / get_context of lena.flow.functions on V follow their docstrings")
+    if which == "get_data":
+        fd = reg.ufun("vdata", ["V"], "V")
+        return [(st, Opaque(ITE(cond, T("(%s %s)" % (fd, v.t.s), "V"), v.t)))]
+    f = reg.ufun("vctx", ["V"], "Val")
+    ax = T("(forall ((v V)) (! (isD (vctx v)) :pattern ((vctx v))))", "Bool")      # (what value_context assumes per value)
+    if not any(a.s == ax.s for a in reg.axioms):
+        reg.axioms.append(ax)
+    return [(st, Opaque(ITE(cond, T("(%s %s)" % (f, v.t.s), "Val"), T("(D emptymap)", "Val"))))]
+
+
 def _sf_vdata(ip, e, st):
     v = ip.ev1(e.args[0], st)
     fd = ip.reg.ufun("vdata", ["V"], "V")
